@@ -506,7 +506,7 @@ func c10UnknownKeysDifferential(c *Ctx, n int) {
 func c10Site2Differentials(c *Ctx) {
 	nfsc, nmode := 150, 200
 	if c.Thorough {
-		nfsc, nmode = 6000, 8000
+		nfsc, nmode = 3000, 4000
 	}
 	c10FindSplitCallsDifferential(c, nfsc)
 	c10CallModeDifferential(c, nmode)
